@@ -139,6 +139,13 @@ func customLeaves(fallible bool) []customLeaf {
 			MethodLines: []string{"context ctxT"},
 		},
 		{
+			// the same defined type on both sides still goes through the function for its underlying type
+			Name:      "extend_underlying_same_defined_type",
+			Shape:     shape{Src: "PFXE", Tgt: "PFXE", Name: "extundsame", Decls: []string{"type PFXE string\n" + fmt.Sprintf("func PFXExt(a string) %s { %s }", errRes("string"), ret(`""`))}},
+			ConvLines: []string{"extend PFXExt", "useUnderlyingTypeMethods"},
+			Custom:    map[string]string{"PFXE→PFXE": "PFXExt", "string→string": "PFXExt"},
+		},
+		{
 			Name:      "extend_underlying",
 			Shape:     shape{Src: "PFXA", Tgt: "PFXS", Name: "extund", Decls: []string{"type PFXA int\ntype PFXS string\n" + fmt.Sprintf("func PFXExt(a int) %s { %s }", errRes("string"), ret(`""`))}},
 			ConvLines: []string{"extend PFXExt", "useUnderlyingTypeMethods"},
@@ -390,6 +397,17 @@ func FamilyCustom(thorough bool) []*Conv {
 			Decls:     "type PFXA int\ntype PFXB int\nfunc pfxConvA(a PFXA) PFXB { return 0 }\nfunc PFXConvS(a string) bool { return false }\nfunc pfxOther(a PFXA) PFXB { return 1 }\n",
 			ConvLines: []string{"extend (pfx|PFX)Conv.*"},
 			Spec:      &Spec{Custom: map[string]string{"PFXA→PFXB": "pfxConvA", "string→bool": "PFXConvS"}},
+		})
+	}
+	// a pattern that also matches the variables of the block being generated: they are not custom functions for
+	// themselves (a variable implemented by calling itself never terminates)
+	for _, pos := range []struct{ name, src, tgt string }{{"top", "PFXA", "PFXB"}, {"elem", "[]PFXA", "[]PFXB"}, {"field", "struct{ V PFXA; S string }", "struct{ V PFXB; S string }"}} {
+		out = append(out, &Conv{
+			ID: "custom/extend_regex_matches_own_variables/" + pos.name + "/variable", Family: "custom", Format: "variable", Solo: true,
+			Params: "source " + pos.src, Results: pos.tgt,
+			Decls:     "type PFXA int\ntype PFXB int\nfunc CONVMETHODHelper(a PFXA) PFXB { return 0 }\n",
+			ConvLines: []string{"extend CONVMETHOD.*"},
+			Spec:      &Spec{Custom: map[string]string{"PFXA→PFXB": "CONVMETHODHelper"}},
 		})
 	}
 	return out
@@ -649,6 +667,20 @@ func fieldFuncConvs(family string, fallible bool) []*Conv {
 			MethodLines: []string{"map Manager ManagerName | PFXNameOf"},
 			Spec:        &Spec{Pairs: map[string]*PairSpec{"PFXEmp→PFXCard": {Fields: map[string]*FieldSpec{"ManagerName": {Path: []string{"Manager"}, Fn: "PFXNameOf"}}}}},
 			Bounds:      &Bounds{MaxSlice: 1, MaxMap: 1, RecDepth: 2},
+		})
+	}
+	// a source method with parameters is a getter whose parameters are all contexts, whatever they are called -
+	// the converter's arg:context:regex classifies the parameters of converter methods and custom functions only
+	for i, f := range []string{"struct", "function", "variable"} {
+		lines := [][]string{{"arg:context:regex ^ctx"}, nil, {"arg:context:regex ^ctx"}}[i]
+		mlines := [][]string{nil, {"arg:context:regex ^ctx"}, nil}[i]
+		getter := []string{"func (p PFXP) Label(l PFXLang, n PFXLevel) string { return \"\" }\n", "func (p PFXP) Label(PFXLang, PFXLevel) string { return \"\" }\n", "func (p PFXP) Label(n PFXLevel, l PFXLang) string { return \"\" }\n"}[i]
+		out = append(out, &Conv{
+			ID: family + "/fieldfunc/getter_with_contexts/" + f, Family: family, Format: f,
+			Params: "source PFXP, ctxLang PFXLang, ctxLevel PFXLevel", Results: "PFXQ",
+			Decls:     "type PFXLang string\ntype PFXLevel int\ntype PFXP struct{ Name string }\ntype PFXQ struct {\n\tName string\n\tLabel string\n}\n" + getter,
+			ConvLines: lines, MethodLines: mlines,
+			Spec: &Spec{Pairs: map[string]*PairSpec{"PFXP→PFXQ": {Fields: map[string]*FieldSpec{"Label": {Via: "PFXP.Label"}}}}},
 		})
 	}
 	// map ... | FUNC whose extra parameter is a context only through a *method-level* arg:context:regex
